@@ -97,7 +97,12 @@ struct Case {
     int depth{1};
     int form{0};   // 0 '[' , 1 '{"a":' , 2 alternating
     int closing{0}; // 0 closed, 1 unclosed, 2 half closed, 3 closed with a wrong bracket in the middle
+    // size class (kind 3): depth = index into kSizes, form = shape, closing = 0 complete / 1 cut one unit short
 };
+
+// lengths and counts around the points where a representation or a buffer policy can switch (8/16 bits, 2^18, 2^20, 2^21)
+const unsigned kSizes[] = {255, 256, 257, 4095, 4097, 65535, 65536, 65537, 262143, 262145, 300000, 1048575, 1048577, 2097153};
+const int      kNSizes  = int(sizeof(kSizes) / sizeof(kSizes[0]));
 
 jm::Units mutated_document(const Case &c, std::string *ops = nullptr) {
     jm::Entropy e(c.bytes);
@@ -193,6 +198,74 @@ jm::Units nesting_document(const Case &c) {
     return u;
 }
 
+// Valid documents that are simply big: one long string (plain, or with an escape at its start / middle / end, as an array
+// element, an object value or an object key), an array / object with many members, a long number token.
+jm::Units size_document(const Case &c) {
+    const unsigned n = kSizes[unsigned(c.depth) % unsigned(kNSizes)];
+    jm::Units      u;
+    auto           add = [&u](const char *t) {
+        for (; *t; ++t) {
+            u.push_back((unsigned char)*t);
+        }
+    };
+    auto long_string = [&](int esc) {
+        u.push_back('"');
+        for (unsigned i = 0; i < n; ++i) {
+            if ((esc == 1 && i == 0) || (esc == 2 && i == n / 2) || (esc == 3 && i + 1 == n)) {
+                add("\\n");
+            } else {
+                u.push_back('a' + (i % 23));
+            }
+        }
+        u.push_back('"');
+    };
+    switch (c.form % 9) {
+        case 0: add("["); long_string(0); add("]"); break;
+        case 1: add("["); long_string(1); add("]"); break;
+        case 2: add("[1,"); long_string(2); add(",2]"); break;
+        case 3: add("{\"k\":"); long_string(3); add("}"); break;
+        case 4: add("{"); long_string(2); add(":1}"); break;
+        case 5: { // many array elements
+            const unsigned m = n > 70000 ? 70000 : n;
+            add("[");
+            for (unsigned i = 0; i < m; ++i) {
+                add(i == 0 ? "" : ",");
+                add((i % 3) == 0 ? "1" : (i % 3) == 1 ? "\"x\"" : "[]");
+            }
+            add("]");
+            break;
+        }
+        case 6: { // many distinct keys
+            const unsigned m = n > 70000 ? 70000 : n;
+            add("{");
+            for (unsigned i = 0; i < m; ++i) {
+                add(i == 0 ? "" : ",");
+                add(("\"k" + std::to_string(i) + "\":" + std::to_string(i % 10)).c_str());
+            }
+            add("}");
+            break;
+        }
+        case 7: { // long number token: 0.000...01e+(zeros+1) denotes 1
+            const unsigned m = n > 120000 ? 120000 : n;
+            add("[0.");
+            u.insert(u.end(), m, '0');
+            add(("1e" + std::to_string(m + 1) + "]").c_str());
+            break;
+        }
+        default: { // long integer-looking token with a negative exponent: 1000...0e-zeros denotes 1
+            const unsigned m = n > 120000 ? 120000 : n;
+            add("[1");
+            u.insert(u.end(), m, '0');
+            add(("E-" + std::to_string(m) + "]").c_str());
+            break;
+        }
+    }
+    if (c.closing == 1 && !u.empty()) {
+        u.pop_back();
+    }
+    return u;
+}
+
 struct H {
     using Case = ::Case;
     static const char *name() { return "C05 JSON parse safety"; }
@@ -216,7 +289,18 @@ struct H {
                                  c.width   = std::get<3>(t);
                                  return c;
                              });
-        return gen::weightedOneOf<Case>({{12, mut}, {1, nest}});
+        auto size = gen::map(gen::tuple(pbt::range<int>(0, kNSizes - 1), pbt::range<int>(0, 8), pbt::pick<int>({0, 0, 0, 1}), pbt::pick<int>({1, 1, 2, 4})),
+                             [](std::tuple<int, int, int, int> t) {
+                                 Case c;
+                                 c.kind    = 3;
+                                 c.depth   = std::get<0>(t);
+                                 c.form    = std::get<1>(t);
+                                 c.closing = std::get<2>(t);
+                                 c.width   = std::get<3>(t);
+                                 return c;
+                             });
+        // the size class is expensive (up to 2 M units per document): one case in four hundred
+        return gen::weightedOneOf<Case>({{360, mut}, {30, nest}, {1, size}});
     }
     static std::string to_text(const Case &c) {
         pbt::KV kv;
@@ -265,6 +349,37 @@ struct H {
         }
         return c;
     }
+    // "sizes": every (size, shape, complete / cut, width) combination of the size class
+    static void enumerate(pbt::Ctx &ctx, unsigned shard, unsigned nshards, const std::string &what) {
+        if (what != "sizes") {
+            fprintf(stderr, "unknown enumeration %s\n", what.c_str());
+            exit(3);
+        }
+        unsigned idx = 0;
+        static const int widths[] = {1, 2, 4};
+        for (int si = 0; si < kNSizes; ++si) {
+            for (int form = 0; form < 9; ++form) {
+                for (int closing = 0; closing < 2; ++closing) {
+                    for (int w : widths) {
+                        if ((idx++ % nshards) != shard) {
+                            continue;
+                        }
+                        Case c;
+                        c.kind    = 3;
+                        c.depth   = si;
+                        c.form    = form;
+                        c.closing = closing;
+                        c.width   = w;
+                        if (pbt::exec_case<H>(ctx, c) == pbt::Status::Fail) {
+                            return;
+                        }
+                    }
+                }
+            }
+        }
+        ctx.exhaustive      = true;
+        ctx.exhaustive_what = "size class: 14 sizes x 9 shapes x complete/cut x 3 unit widths (756 documents, sharded)";
+    }
     static void run(const Case &c, pbt::Ctx &ctx) {
         jm::Units u;
         if (c.kind == 0) {
@@ -273,12 +388,22 @@ struct H {
         } else if (c.kind == 1) {
             u = nesting_document(c);
             ctx.label("nesting-depth-" + std::to_string(c.depth));
+        } else if (c.kind == 3) {
+            u = size_document(c);
+            static const char *sh[] = {"string", "string-escape-first", "string-escape-middle", "string-escape-last", "key-escape-middle", "array-members",
+                                       "object-members", "number-fraction-zeros", "number-trailing-zeros"};
+            ctx.label(std::string("size:") + sh[c.form % 9]);
+            ctx.nontrivial();
         } else {
             for (size_t i = 0; i + 3 < c.bytes.size(); i += 4) {
                 u.push_back((uint32_t(c.bytes[i]) << 24) | (uint32_t(c.bytes[i + 1]) << 16) | (uint32_t(c.bytes[i + 2]) << 8) | c.bytes[i + 3]);
             }
         }
         Outcome o = parse_width(u, c.width, ctx);
+        if (c.kind == 3 && (c.form % 9) < 7 && (c.closing == 0) != o.accepted) {
+            ctx.fail(c.closing == 0 ? "big-document-rejected" : "cut-big-document-accepted",
+                     std::string("big document (") + std::to_string(u.size()) + " units, shape " + std::to_string(c.form % 9) + ")");
+        }
         if (c.kind == 1 && c.closing == 0 && !o.accepted) {
             ctx.fail("deep-document-rejected", "well-formed document nested " + std::to_string(c.depth) + " levels was rejected");
         }
